@@ -76,11 +76,21 @@ def overRuns (f : Tok → List Tok → Except JoinErr (List Tok)) : Nat → List
       | .error e => .error e
       | .ok r' => .ok (t :: r')
 
+/-- the second pass on one run, as a step of `overRuns`: the run is replaced by one token -/
+def pass2Step (t : Tok) (r : List Tok) : Except JoinErr (List Tok) := (joinPass2 t r).map (fun x => [x])
+
+/-- both passes on one run, as a step of `overRuns` -/
+def runStep (t : Tok) (r : List Tok) : Except JoinErr (List Tok) := (joinRun t r).map (fun x => [x])
+
 /-- `join_adjacent_string_literals(tok)` on a whole token list: the first pass over every run, then the second pass over every run -/
 def joinTokens (toks : List Tok) : Except JoinErr (List Tok) :=
   match overRuns joinPass1 (toks.length + 1) toks with
   | .error e => .error e
-  | .ok toks1 => overRuns (fun t r => (joinPass2 t r).map (fun x => [x])) (toks1.length + 1) toks1
+  | .ok toks1 => overRuns pass2Step (toks1.length + 1) toks1
+
+/-- run by run: both passes on the first run, then both passes on the next one, … (`C11_join_tokens`: the same result as `joinTokens`
+    whenever either returns) -/
+def joinTokensPerRun (toks : List Tok) : Except JoinErr (List Tok) := overRuns runStep (toks.length + 1) toks
 
 -- ------------------------------------------------------------------ read_file + tokenize_file
 
